@@ -2,6 +2,7 @@ CONSTANTS
   MaxSize = 9
   Prof <- ProfCore
   MathTable <- NoTable
+  GenBackend = "any"
 INIT GInit
 NEXT GNext
 INVARIANT Export
